@@ -34,7 +34,8 @@ type Opts struct {
 	NoAutoRead         bool   `json:"disable_auto_read,omitempty"`
 	TimeoutMs          int    `json:"timeout_ms,omitempty"`
 	H2MaxHeaderList    int    `json:"h2_max_header_list_size,omitempty"`
-	Expect100          bool   `json:"expect_100_continue,omitempty"` // the request carries Expect: 100-continue (POST with a body)
+	H2LimitVia         string `json:"h2_limit_configured_via,omitempty"` // "" = SetHTTP2MaxHeaderListSize | settings-frame | settings-frame-with-others
+	Expect100          bool   `json:"expect_100_continue,omitempty"`     // the request carries Expect: 100-continue (POST with a body)
 }
 
 type Round struct {
@@ -59,6 +60,12 @@ type Structured struct {
 	Status int    `json:"status"`
 }
 
+type GoAwayF struct {
+	Last  uint32 `json:"last_stream_id"`
+	Code  uint32 `json:"error_code"`
+	Debug string `json:"debug"`
+}
+
 type Case struct {
 	ID        int         `json:"id"`
 	Kind      string      `json:"kind"` // h1 | altsvc | challenge | ...
@@ -71,6 +78,7 @@ type Case struct {
 	H3        *H3Extra    `json:"h3,omitempty"`
 	InfoCodes []int       `json:"h2_status_sequence,omitempty"` // :status of every HEADERS block served, in order
 	Alg       *string     `json:"digest_algorithm_token,omitempty"`
+	GoAways   []GoAwayF   `json:"h2_goaway_frames,omitempty"`
 	Expect    string      `json:"expect,omitempty"`                          // what the generator knows the outcome must be: error | response | response-clean
 	Pre       int         `json:"exchanges_before_on_same_client,omitempty"` // rounds[0..Pre) are served to plain GETs first, the last round to the observed call
 	Model     bool        `json:"model_compared"`                            // emit an H1Case for the Coq model
